@@ -541,25 +541,35 @@ pub fn check(l: &Layout, with_cli: bool) -> CaseOut {
 	if with_cli {
 		let split = if libs.is_empty() { 0 } else { libs.len() / 2 + libs.len() % 2 };
 		let (jdirs, envdirs) = libs.split_at(split);
-		let mut cmd = std::process::Command::new("/verif/target/repo/debug/jrsonnet");
-		// right-most -J wins: pass them in reverse priority order
-		for d in jdirs.iter().rev() {
-			cmd.arg("-J").arg(d);
-		}
-		if !envdirs.is_empty() {
-			cmd.env("JSONNET_PATH", std::env::join_paths(envdirs).unwrap());
-		} else {
-			cmd.env_remove("JSONNET_PATH");
-		}
-		cmd.arg("--line-padding").arg("0").arg(&main).current_dir(&root);
-		match cmd.output() {
-			Ok(o) => {
-				let out = String::from_utf8_lossy(&o.stdout).trim().to_owned();
-				let got = if o.status.success() { Outcome::Val(out) } else { Outcome::Err("cli".into(), String::from_utf8_lossy(&o.stderr).into_owned()) };
-				agree(&got, "jrsonnet executable (-J / JSONNET_PATH)", &mut problems);
-				classes.push("cli".into());
+		// the directories spelled absolutely, and relative to the working directory
+		for relative in [false, true] {
+			let spell = |d: &std::path::PathBuf| -> std::path::PathBuf {
+				match (relative, d.strip_prefix(&root)) {
+					(true, Ok(r)) => r.to_path_buf(),
+					_ => d.clone(),
+				}
+			};
+			let mut cmd = std::process::Command::new("/verif/target/repo/debug/jrsonnet");
+			// right-most -J wins: pass them in reverse priority order
+			for d in jdirs.iter().rev() {
+				cmd.arg("-J").arg(spell(d));
 			}
-			Err(e) => problems.push(format!("cannot run the executable: {e}")),
+			if !envdirs.is_empty() {
+				cmd.env("JSONNET_PATH", std::env::join_paths(envdirs.iter().map(spell)).unwrap());
+			} else {
+				cmd.env_remove("JSONNET_PATH");
+			}
+			cmd.arg("--line-padding").arg("0").arg(&main).current_dir(&root);
+			match cmd.output() {
+				Ok(o) => {
+					let out = String::from_utf8_lossy(&o.stdout).trim().to_owned();
+					let got = if o.status.success() { Outcome::Val(out) } else { Outcome::Err("cli".into(), String::from_utf8_lossy(&o.stderr).into_owned()) };
+					let label = if relative { "jrsonnet executable (-J / JSONNET_PATH, relative directories)" } else { "jrsonnet executable (-J / JSONNET_PATH)" };
+					agree(&got, label, &mut problems);
+					classes.push(if relative { "cli-relative-dirs".into() } else { "cli".into() });
+				}
+				Err(e) => problems.push(format!("cannot run the executable: {e}")),
+			}
 		}
 	}
 	let nontrivial = !l.decoys.is_empty() || !l.links.is_empty() || l.shape.contains("cycle") || l.disk_fault.is_some() || injected > 0;
